@@ -18,8 +18,8 @@ CLAIMED = {
             "Trusted: Lean kernel, harness, hooks; allocation freshness is the C11/C12 models' guarantee; Vec growth and std copying assumed.",
             "DESIGN.md §5 C02"),
     "C03": (T_PROOF + ": soundness of the analysis model (reachability, effect classes, summaries, liveness) w.r.t. the evaluator model for any plan contained in the model's plan; correspondence on facts/plan/warnings + plan/no-plan differential",
-            "Theorems that pruned statements never change the run (simulation on live variables), unreachable statements never execute, PureNoTrap expressions neither trap nor have effects; the real plan is checked to be contained in the model's plan on generated programs and the real runtime is run with and without the plan.",
-            "Trusted: Lean kernel, harness; runs ending in fuel/stack exhaustion excluded as the property says.",
+            "Theorems that pruned statements never change the run (simulation on live variables), unreachable statements never execute, PureNoTrap expressions neither trap nor have effects — proved on an evaluator with abstract lawful primitives, instantiated with the shared evaluator's own primitives (c03_concrete) and proved equivalent up to fuel to the shared evaluator model in both directions (c03_bridge, c03_bridge_converse), hence c03_eval for Eval.run itself; the real plan is checked to be contained in the model's plan on generated programs, the real runtime is run with and without the plan, and the concrete instance is run against the real runtime (arun).",
+            "Trusted: Lean kernel, harness; runs ending in fuel/stack exhaustion excluded as the property says; the decidable, plan-free side conditions (structOkB, bridge side conditions) are evaluated by the driver on every tested program (100 %), not proved for every resolver output.",
             "DESIGN.md §5 C03"),
     "C04": (T_PROOF + ": resolver model binds to the nearest enclosing declaration; most-recent-instance invariant makes dynamic id lookup equal lexical lookup on every reachable evaluator state",
             "Static theorem (binding = nearest enclosing declaration; functions visible throughout their block) and dynamic theorem (the runtime's whole-stack search by id finds the lexically visible instance) over the resolver and evaluator models; both models are tied to the code by differential runs (bindings and outputs).",
@@ -30,8 +30,8 @@ CLAIMED = {
             "Trusted: Lean kernel, harness; sharing in the Rust Vec representation is excluded by the tie and by C02, not by the pure model.",
             "DESIGN.md §5 C05"),
     "C06": (T_PROOF + ": progress theorem over the evaluator model with explicit panic outcomes; generated panic-site list must be covered; exhaustive sink × type × route product in the tie",
-            "Accepted programs never reach a panic outcome of the evaluator model (Props/C06Accepted: all nine residual sites discharged from the lexer, parser and resolver models, for source text through the pipeline model; the plan hypothesis is call-graph reachability (PlanReach), proved for the analysis model's own plan under decidable plan-free conditions on the facts (analysis_plan_reach, c06_pipeline_reach) and evaluated by the driver on the real plan and annotations of every accepted program; remaining explicit hypotheses: those facts conditions for the resolver's output and that the number type parses digit lexemes); the model's panic sites are checked against a list regenerated from runtime.rs/builtins; the finite product of operator/condition/index/method sinks × runtime types × dynamic routes is executed completely on the real runtime each run.",
-            "Trusted: Lean kernel, extractor of panic sites, harness worker isolation; FactsCoverCalls (facts cover the call annotations, reachable set closed) is evaluated per program, not yet proved for every resolver output.",
+            "Accepted programs never reach a panic outcome of the evaluator model (Props/C06Accepted: all nine residual sites discharged from the lexer, parser and resolver models, for source text through the pipeline model; c06_pipeline_unconditional: the shipped pipeline model — lex, parse, resolve, analyses, run with the analyses' own plan — never reaches a panic outcome, for every source text; the plan condition is call-graph reachability (PlanReach), proved for the analysis model's plan on every output of the resolver model, and evaluated by the driver on the REAL plan and annotations of every accepted program; remaining explicit hypothesis: the number type parses digit lexemes); the model's panic sites are checked against a list regenerated from runtime.rs/builtins; the finite product of operator/condition/index/method sinks × runtime types × dynamic routes is executed completely on the real runtime each run.",
+            "Trusted: Lean kernel, extractor of panic sites, harness worker isolation; NumLitsParse (str::parse::<f64> accepts digits and digits.digits) is an assumption on the number type.",
             "DESIGN.md §5 C06"),
     "C07": (T_PROOF + ": lexer/parser totality (fuel adequacy) and span theorems (ordered, in range, on character boundaries) over the front-end models; correspondence on arbitrary UTF-8, truncations and token mutations",
             "For every UTF-8 text the lexer and parser models terminate, all token/AST/diagnostic/label spans are ordered, in range and on character boundaries; models tied to scanner.rs/parser.rs/resolver.rs by differential runs incl. renderer survival, with worker isolation for aborts.",
@@ -69,8 +69,8 @@ CLAIMED = {
             "For every builder history the spec holds exactly the configured argv/env/cwd/stdin; validate accepts iff every cap is respected (each boundary exact); denied or invalid commands spawn nothing — proved on the model and compared with the real code incl. real child processes.",
             "Trusted: Lean kernel, harness; std::process::Command (no shell interpretation) trusted and observed.",
             "DESIGN.md §5 C15"),
-    "C16": (T_PROOF + ": inductive invariant over all interleavings of a transition-system model of child, pipes, reader threads, overflow flag and polling waiter; real runs under varied timing must land in the allowed outcome set",
-            "Partial: in every terminal state of the model the result is the complete output or the corresponding error and killed children are reaped; OS scheduling and pipe semantics are modelled assumptions; the real runner is exercised under varied timing incl. CPU-starved schedules.",
+    "C16": (T_PROOF + ": inductive invariant over all interleavings of a transition-system model of child, pipes, reader threads (incl. failing reads), stdin writer thread, overflow flag and polling waiter; real runs under varied timing must land in the allowed outcome set; the real capture loop on scripted readers with injected read errors",
+            "Partial: in every terminal state of the model the result is the complete output or the corresponding error and killed children are reaped; a failing read of a captured stream always ends in an error; the timeout/kill logic is independent of the stdin writer and a child that outlives the deadline is reported as a timeout whatever the stdin size; OS scheduling and pipe semantics are modelled assumptions; the real runner is exercised under varied timing incl. CPU-starved schedules and stdin texts larger than the pipe buffer against non-reading children.",
             "Trusted: Lean kernel, harness; pipe/kill/wait semantics assumed (labelled partial).",
             "DESIGN.md §5 C16"),
     "C17": (T_PROOF + ": for every chunking of every text k calls return the first k lines (induction over the chunk list with the leftover buffer as invariant); real read_line fed through a pipe with controlled chunks",
